@@ -221,7 +221,8 @@ impl TableDef {
                     out.push(ident(name));
                     out.push(op("="));
                     if let Some(m) = mode {
-                        out.push(ident(m));
+                        // `split` is a documented keyword of the definition syntax (case-insensitive like the others)
+                        out.push(if m == "split" { kw(m) } else { ident(m) });
                     }
                     out.push(tok(&quote(regex), TokKind::Str));
                 }
